@@ -12,7 +12,7 @@ MODULES = {
     "C02": ["C02", "GenNumGu", "GenNumPgu"],
     "C03": ["C03", "GenNumGu", "GenNumPgu"],
     "C04": ["C04", "GenNumOptv", "GenNumOptvp", "GenNumOptvpCore", "GenNumOptvplc"],
-    "C05": ["C05"],
+    "C05": ["C05", "GenNumWcv", "GenNumWcvp"],
     "C06": ["C06core", "C06"],
     "C07": ["C07", "GenNumBrent", "GenNumGammafit", "GenNumGammastd"],
     "C08": ["C08", "GenNumGammastd", "GenNumGammastdYxt"],
